@@ -82,7 +82,8 @@ impl NumberSuffix {
     /// Check the first several characters in a buffer to see if it matches a
     /// number suffix.
     pub fn from_chars(chars: &[char]) -> Option<Self> {
-        if chars.len() < 2 {
+        // The suffix has to be the whole word: `3things` is not `3th`.
+        if chars.len() != 2 {
             return None;
         }
 
